@@ -455,7 +455,7 @@ theorem encRegion_allR (k : Kind) (ls : List (List Tok)) (t : Tok) (h : t ∈ en
   unfold encRegion at h
   split at h
   · simp at h
-  · simp only [List.mem_cons, List.mem_append, List.mem_singleton, List.not_mem_nil, or_false] at h
+  · simp only [List.mem_cons, List.mem_append, List.not_mem_nil, or_false] at h
     rcases h with rfl | h | rfl
     · rfl
     · exact encLeaves_allR ls t h
@@ -794,5 +794,458 @@ theorem hardSeq_wf (cfg : Cfg) (ts : List Tok) (h : NoR ts) : ∀ s ∈ hardSeq 
     have := hs.2
     simp only [Seg.keep, Bool.not_eq_true', List.isEmpty_eq_false_iff] at this
     exact this
+
+
+/-! ## canonical leaves -/
+
+theorem insertLeaf_perm (x : List Tok) : ∀ l : List (List Tok), (insertLeaf x l).Perm (x :: l) := by
+  intro l
+  induction l with
+  | nil => exact List.Perm.refl _
+  | cons y ys ih =>
+    unfold insertLeaf
+    split
+    · exact List.Perm.refl _
+    · exact (List.Perm.cons y ih).trans (List.Perm.swap x y ys)
+
+theorem sortLeaves_perm : ∀ l : List (List Tok), (sortLeaves l).Perm l := by
+  intro l
+  induction l with
+  | nil => exact List.Perm.refl _
+  | cons x xs ih =>
+    unfold sortLeaves
+    exact (insertLeaf_perm x _).trans (List.Perm.cons x ih)
+
+theorem dedupAdj_mem (x : List Tok) : ∀ l : List (List Tok), x ∈ dedupAdj l ↔ x ∈ l := by
+  intro l
+  induction l with
+  | nil => simp [dedupAdj]
+  | cons a l ih =>
+    cases l with
+    | nil => simp [dedupAdj]
+    | cons b r =>
+      unfold dedupAdj
+      split
+      · rename_i h
+        have : a = b := by simpa using h
+        subst this
+        rw [ih]; simp
+      · simp only [List.mem_cons] at ih ⊢
+        rw [ih]
+
+/-- What equal canonical leaf lists say about the raw leaf lists of two regions: derives keep their
+list; `mod` / `extern crate` runs are permutations of each other; `use` runs import the same set of
+paths (the formatter drops a repeated import). -/
+theorem canonLeaves_sound (k : Kind) (l1 l2 : List (List Tok)) (h : canonLeaves k l1 = canonLeaves k l2) :
+    (k = 3 → l1 = l2) ∧ (k ≠ 3 → k ≠ 0 → l1.Perm l2) ∧ (k = 0 → ∀ x, x ∈ l1 ↔ x ∈ l2) := by
+  refine ⟨?_, ?_, ?_⟩
+  · intro hk; subst hk; simpa [canonLeaves] using h
+  · intro h3 h0
+    have e : ∀ l, canonLeaves k l = sortLeaves l := by
+      intro l; unfold canonLeaves; simp [h3, h0]
+    rw [e, e] at h
+    exact (sortLeaves_perm l1).symm.trans (h ▸ sortLeaves_perm l2)
+  · intro hk x; subst hk
+    have e : ∀ l, canonLeaves 0 l = dedupAdj (sortLeaves l) := by intro l; rfl
+    rw [e, e] at h
+    rw [← (sortLeaves_perm l1).mem_iff, ← (sortLeaves_perm l2).mem_iff, ← dedupAdj_mem x (sortLeaves l1), h, dedupAdj_mem]
+
+/-! ## the two opt-in rewrites of hard tokens (coarse locality) -/
+
+def clsFis (t : Tok) : Bool := t.isP ':' || t.cls == ['i']
+
+theorem ruleFis_local : RuleLocal clsFis ruleFis := by
+  intro enc lo p2 p1 t rest a h
+  unfold ruleFis at h
+  rule_cases h
+  all_goals (simp only [drop_, Option.some.injEq] at h; subst h; apply actLocal_drop; simp_all [clsFis])
+
+def clsWild (t : Tok) : Bool := isWild t || t.isP ',' || t.isP '.'
+
+theorem wildTailLen_take : ∀ (ts : List Tok) (n : Nat), wildTailLen ts = some n →
+    ∀ t ∈ ts.take n, clsWild t = true := by
+  intro ts
+  fun_induction wildTailLen ts <;> intro n h
+  all_goals (try (cases h; done))
+  all_goals (try (cases h; simp; done))
+  · rename_i c u r hc1 hc2 hc ih
+    simp only [Option.map_eq_some_iff] at h
+    obtain ⟨m, hm, rfl⟩ := h
+    intro t ht
+    simp only [List.take_succ_cons, List.mem_cons] at ht
+    simp only [Bool.and_eq_true] at hc
+    rcases ht with rfl | rfl | ht
+    · simp [clsWild, hc.1]
+    · simp [clsWild, hc.2]
+    · exact ih m hm t ht
+  all_goals
+    cases h
+    intro t ht
+    simp only [List.take_succ_cons, List.take_zero, List.mem_cons, List.not_mem_nil, or_false] at ht
+    simp only [Bool.and_eq_true] at *
+    rcases ht with rfl | rfl | rfl <;> simp_all [clsWild]
+
+theorem outside_eq_nil_of_all (S : Tok → Bool) (ts : List Tok) (h : ∀ t ∈ ts, S t = true) : outside S ts = [] := by
+  unfold outside
+  rw [List.filter_eq_nil_iff]
+  intro t ht; simp [h t ht]
+
+theorem wildAux_local : ∀ (ts : List Tok) (n : Nat) (p1 : Tok), (∀ t ∈ ts.take n, clsWild t = true) →
+    outside clsWild (wildAux n p1 ts) = outside clsWild (ts.drop n) := by
+  intro ts
+  induction ts with
+  | nil => intro n p1 _; simp [wildAux]
+  | cons t ts ih =>
+    intro n p1 h
+    cases n with
+    | succ n =>
+      simp only [wildAux, List.drop_succ_cons]
+      exact ih n t (fun u hu => h u (by simp [List.take_succ_cons, hu]))
+    | zero =>
+      simp only [wildAux, List.drop_zero]
+      split
+      · rename_i hc
+        simp only [Bool.and_eq_true] at hc
+        split
+        · rename_i n hn
+          have hall := wildTailLen_take ts (n + 1) hn
+          have hdot : clsWild (mkP '.') = true := by decide
+          rw [outside_cons, outside_cons, hdot, ih (n + 1) t hall, outside_cons]
+          have ht : clsWild t = true := by simp [clsWild, hc.1]
+          simp only [ht, if_true]
+          conv => rhs; rw [← List.take_append_drop (n + 1) ts, outside_append, outside_eq_nil_of_all _ _ hall]
+          simp
+        · rw [outside_cons, outside_cons, ih 0 t (by simp)]; simp
+      · rw [outside_cons, outside_cons, ih 0 t (by simp)]; simp
+
+theorem wildCondense_local (ts : List Tok) : outside clsWild (wildCondense ts) = outside clsWild ts := by
+  have := wildAux_local ts 0 noTok (by simp)
+  simpa [wildCondense] using this
+
+/-- the tokens outside the soft class and outside the classes of the ENABLED opt-in rewrites -/
+def softX (cfg : Cfg) (t : Tok) : Bool :=
+  soft cfg t || (cfg.fis && clsFis t) || (cfg.wild && clsWild t)
+
+theorem soft_softX (cfg : Cfg) (t : Tok) (h : soft cfg t = true) : softX cfg t = true := by
+  simp [softX, h]
+
+theorem softX_eq_soft (cfg : Cfg) (hf : cfg.fis = false) (hw : cfg.wild = false) : softX cfg = soft cfg := by
+  funext t; simp [softX, hf, hw]
+
+theorem post_outside_softX (cfg : Cfg) (ts : List Tok) :
+    outside (softX cfg) (post cfg ts) = outside (softX cfg) ts := by
+  rw [post_eq]
+  have h1 := postSoft_hards cfg (onlyIf cfg.wild wildCondense
+      (onlyIf cfg.useTry (runRule ruleTry) (onlyIf cfg.fis (runRule ruleFis) ts)))
+  rw [hards_eq_outside, hards_eq_outside] at h1
+  rw [outside_mono (soft_softX cfg) h1]
+  have h2 : ∀ x, outside (softX cfg) (onlyIf cfg.wild wildCondense x) = outside (softX cfg) x := by
+    intro x; unfold onlyIf; split
+    · rename_i h
+      exact outside_mono (fun t ht => by simp [softX, h, ht]) (wildCondense_local x)
+    · rfl
+  rw [h2]
+  have h3 := tryRule_hards cfg (onlyIf cfg.fis (runRule ruleFis) ts)
+  rw [hards_eq_outside, hards_eq_outside] at h3
+  rw [outside_mono (soft_softX cfg) h3]
+  unfold onlyIf; split
+  · rename_i h
+    exact outside_mono (fun t ht => by simp [softX, h, ht]) (runRule_outside clsFis ruleFis ruleFis_local ts)
+  · rfl
+
+theorem post_hards (cfg : Cfg) (hf : cfg.fis = false) (hw : cfg.wild = false) (ts : List Tok) :
+    hards cfg (post cfg ts) = hards cfg ts := by
+  have := post_outside_softX cfg ts
+  rw [softX_eq_soft cfg hf hw] at this
+  exact this
+
+
+instance (ts : List Tok) : Decidable (NoR ts) := by unfold NoR; infer_instance
+
+/-! ## the first half of the pipeline (`mid`): what it can touch -/
+
+def isLit (t : Tok) : Bool := match t.cls with | 'L' :: _ => true | _ => false
+
+theorem canonTok_other (cfg : Cfg) (t : Tok) (h1 : t.isDoc = false) (h2 : isLit t = false) : canonTok cfg t = t := by
+  obtain ⟨cls, text⟩ := t
+  unfold canonTok
+  simp only [Tok.isDoc, isLit] at h1 h2
+  have hd : (cls == ['d']) = false := h1
+  have hl : ∀ r, cls ≠ 'L' :: r := by
+    intro r hr; subst hr; simp at h2
+  simp only [hd, Bool.false_eq_true, if_false]
+  have e1 : (cls == ['L','s'] || cls == ['L','B'] || cls == ['L','C']) = false := by
+    simp [hl]
+  have e2 : (cls == ['L','r'] || cls == ['L','R'] || cls == ['L','q']) = false := by
+    simp [hl]
+  have e3 : (cls == ['L','i']) = false := by simp [hl]
+  have e4 : (cls == ['L','f']) = false := by simp [hl]
+  simp only [e1, e2, e3, e4, Bool.false_eq_true, if_false]
+
+theorem canonTok_isDoc (cfg : Cfg) (t : Tok) : (canonTok cfg t).isDoc = t.isDoc := by
+  rcases canonTok_cls cfg t with h | ⟨h1, h2⟩
+  · simp [Tok.isDoc, h]
+  · simp [Tok.isDoc, h1, h2]
+
+theorem canonTok_isLit (cfg : Cfg) (t : Tok) : isLit (canonTok cfg t) = isLit t := by
+  rcases canonTok_cls cfg t with h | ⟨h1, h2⟩
+  · simp [isLit, h]
+  · simp [isLit, h1, h2]
+
+/-- literals and doc comments: the tokens `canonTok` may re-spell -/
+def clsSpell (t : Tok) : Bool := t.isDoc || isLit t
+
+theorem map_canonTok_outside (cfg : Cfg) (S : Tok → Bool) (hS : ∀ t, clsSpell t = true → S t = true)
+    (hS' : ∀ t, S (canonTok cfg t) = S t) :
+    ∀ ts : List Tok, outside S (ts.map (canonTok cfg)) = outside S ts := by
+  intro ts
+  induction ts with
+  | nil => rfl
+  | cons t ts ih =>
+    simp only [List.map_cons, outside_cons, ih, hS']
+    split
+    · rfl
+    · rename_i h
+      have : clsSpell t = false := by
+        cases hc : clsSpell t
+        · rfl
+        · exact absurd (hS t hc) h
+      simp only [clsSpell, Bool.or_eq_false_iff] at this
+      rw [canonTok_other cfg t this.1 this.2]
+
+theorem splitTupleIdx_text {cs a b : List Char} (h : splitTupleIdx cs = some (a, b)) : a ++ '.' :: b = cs := by
+  unfold splitTupleIdx at h
+  simp only [] at h
+  split at h
+  · rename_i b' hb
+    split at h
+    · cases h
+      have := List.takeWhile_append_dropWhile (p := isDigit) (l := cs)
+      rw [hb] at this
+      exact this
+    · cases h
+  · cases h
+
+theorem resplitAux_text : ∀ (ts : List Tok) (dots : Nat),
+    (resplitAux dots ts).flatMap (·.text) = ts.flatMap (·.text) := by
+  intro ts
+  induction ts with
+  | nil => intro _; rfl
+  | cons t ts ih =>
+    intro dots
+    unfold resplitAux
+    split
+    · simp [ih]
+    · split
+      · split
+        · rename_i a b h
+          simp only [List.flatMap_cons, ih, mkP]
+          rw [← splitTupleIdx_text h]; simp
+        · simp [ih]
+      · simp [ih]
+
+/-- numeric literals and `.`: the tokens `resplit` may touch -/
+def clsNum (t : Tok) : Bool := isNumLit t || t.isP '.'
+
+theorem resplitAux_outside : ∀ (ts : List Tok) (dots : Nat),
+    outside clsNum (resplitAux dots ts) = outside clsNum ts := by
+  intro ts
+  induction ts with
+  | nil => intro _; rfl
+  | cons t ts ih =>
+    intro dots
+    unfold resplitAux
+    split
+    · simp only [outside_cons, ih]
+    · split
+      · split
+        · rename_i hc _ a b h
+          simp only [Bool.and_eq_true] at hc
+          have ht : clsNum t = true := by
+            have := hc.2; simp only [beq_iff_eq] at this
+            simp [clsNum, isNumLit, this]
+          have h1 : clsNum ⟨['L','i'], a⟩ = true := by simp [clsNum, isNumLit]
+          have h2 : clsNum ⟨['L','i'], b⟩ = true := by simp [clsNum, isNumLit]
+          have h3 : clsNum (mkP '.') = true := by decide
+          simp only [outside_cons, ih, ht, h1, h2, h3, if_true]
+        · simp only [outside_cons, ih]
+      · simp only [outside_cons, ih]
+
+/-- the tokens of a `#[doc = "…"]` / `#![doc = "…"]` attribute and doc comments: what `docAttr` may touch -/
+def clsDocAttr (t : Tok) : Bool :=
+  t.isP '#' || t.isP '!' || t.isO '[' || t.isC ']' || t.isI kwDoc || t.isP '=' || t.cls == ['L','s'] || t.isDoc
+
+theorem docAttrToks_cls {inner : Bool} {o d e s c : Tok} {x : List Tok}
+    (h : docAttrToks inner o d e s c = some x) :
+    (clsDocAttr o = true ∧ clsDocAttr d = true ∧ clsDocAttr e = true ∧ clsDocAttr s = true ∧ clsDocAttr c = true) ∧
+    ∀ t ∈ x, clsDocAttr t = true := by
+  unfold docAttrToks at h
+  split at h
+  · rename_i hc
+    simp only [Bool.and_eq_true, beq_iff_eq] at hc
+    refine ⟨⟨by simp [clsDocAttr, hc.1.1.1.1], by simp [clsDocAttr, hc.1.1.1.2], by simp [clsDocAttr, hc.1.1.2],
+      by simp [clsDocAttr, hc.1.2], by simp [clsDocAttr, hc.2]⟩, ?_⟩
+    simp only [Option.map_eq_some_iff] at h
+    obtain ⟨v, _, rfl⟩ := h
+    intro t ht
+    simp only [List.mem_map] at ht
+    obtain ⟨l, _, rfl⟩ := ht
+    simp [clsDocAttr, Tok.isDoc]
+  · cases h
+
+theorem docAttrAt_cls {ts : List Tok} {x : List Tok} {n : Nat} (h : docAttrAt ts = some (x, n)) :
+    (∀ t ∈ ts.take (n + 1), clsDocAttr t = true) ∧ ∀ t ∈ x, clsDocAttr t = true := by
+  unfold docAttrAt at h
+  split at h
+  · rename_i hd o d e s c r
+    split at h
+    · rename_i hh
+      have hhd : clsDocAttr hd = true := by simp [clsDocAttr, hh]
+      split at h
+      · rename_i y hy
+        cases h
+        obtain ⟨⟨h1, h2, h3, h4, h5⟩, h6⟩ := docAttrToks_cls hy
+        refine ⟨?_, h6⟩
+        intro t ht
+        simp only [List.take_succ_cons, List.take_zero, List.mem_cons, List.not_mem_nil, or_false] at ht
+        rcases ht with rfl | rfl | rfl | rfl | rfl | rfl <;> assumption
+      · split at h
+        · rename_i hb
+          split at h
+          · rename_i c' r'
+            simp only [Option.map_eq_some_iff] at h
+            obtain ⟨y, hy, hh2⟩ := h
+            cases hh2
+            obtain ⟨⟨h1, h2, h3, h4, h5⟩, h6⟩ := docAttrToks_cls hy
+            refine ⟨?_, h6⟩
+            have ho : clsDocAttr o = true := by simp [clsDocAttr, hb]
+            intro t ht
+            simp only [List.take_succ_cons, List.take_zero, List.mem_cons, List.not_mem_nil, or_false] at ht
+            rcases ht with rfl | rfl | rfl | rfl | rfl | rfl | rfl <;> assumption
+          · cases h
+        · cases h
+    · cases h
+  · cases h
+
+theorem docAttrAux_outside : ∀ (ts : List Tok) (n : Nat), (∀ t ∈ ts.take n, clsDocAttr t = true) →
+    outside clsDocAttr (docAttrAux n ts) = outside clsDocAttr (ts.drop n) := by
+  intro ts
+  induction ts with
+  | nil => intro n _; simp [docAttrAux]
+  | cons t ts ih =>
+    intro n h
+    cases n with
+    | succ n =>
+      simp only [docAttrAux, List.drop_succ_cons]
+      exact ih n (fun u hu => h u (by simp [List.take_succ_cons, hu]))
+    | zero =>
+      simp only [docAttrAux, List.drop_zero]
+      split
+      · rename_i x n hx
+        obtain ⟨h1, h2⟩ := docAttrAt_cls hx
+        have ht : clsDocAttr t = true := h1 t (by simp [List.take_succ_cons])
+        have hts : ∀ u ∈ ts.take n, clsDocAttr u = true := fun u hu => h1 u (by simp [List.take_succ_cons, hu])
+        rw [outside_append, outside_eq_nil_of_all _ _ h2, ih n hts, outside_cons]
+        simp only [ht, if_true, List.nil_append]
+        conv => rhs; rw [← List.take_append_drop n ts, outside_append, outside_eq_nil_of_all _ _ hts]
+        simp
+      · rw [outside_cons, outside_cons, ih 0 (by simp)]; simp
+
+theorem docAttr_outside (ts : List Tok) : outside clsDocAttr (docAttr ts) = outside clsDocAttr ts := by
+  simpa [docAttr] using docAttrAux_outside ts 0 (by simp)
+
+theorem docMergeAux_outside (code : Bool) : ∀ (ts : List Tok) (cur : Option (Bool × List (List Char))),
+    outside Tok.isDoc (docMergeAux code cur ts) = outside Tok.isDoc ts := by
+  intro ts
+  have hf : ∀ i acc, Tok.isDoc (docFlush code i acc) = true := fun _ _ => rfl
+  induction ts with
+  | nil =>
+    intro cur
+    cases cur with
+    | none => simp [docMergeAux]
+    | some x => obtain ⟨i, acc⟩ := x; simp [docMergeAux, outside_cons, hf]
+  | cons t ts ih =>
+    intro cur
+    cases cur with
+    | none =>
+      simp only [docMergeAux]
+      split
+      · rename_i h; rw [ih, outside_cons, h]; simp
+      · rename_i h; rw [outside_cons, outside_cons, ih]
+    | some x =>
+      obtain ⟨j, acc⟩ := x
+      simp only [docMergeAux]
+      split
+      · rename_i h
+        split
+        · rw [ih, outside_cons, h]; simp
+        · rw [outside_cons, hf, ih, outside_cons, h]; simp
+      · rename_i h
+        rw [outside_cons, hf, outside_cons, outside_cons, ih]; simp
+
+/-- everything `mid` may touch under `cfg` -/
+def clsMid (cfg : Cfg) (t : Tok) : Bool := clsSpell t || clsNum t || (cfg.docattr && clsDocAttr t)
+
+theorem clsMid_canonTok (cfg : Cfg) (t : Tok) : clsMid cfg (canonTok cfg t) = clsMid cfg t := by
+  by_cases h : clsSpell t = true
+  · have : clsSpell (canonTok cfg t) = true := by
+      simp only [clsSpell, canonTok_isDoc, canonTok_isLit] at h ⊢; exact h
+    simp [clsMid, h, this]
+  · have h' : clsSpell t = false := by simpa using h
+    simp only [clsSpell, Bool.or_eq_false_iff] at h'
+    rw [canonTok_other cfg t h'.1 h'.2]
+
+theorem mid_outside (cfg : Cfg) (ts : List Tok) : outside (clsMid cfg) (mid cfg ts) = outside (clsMid cfg) ts := by
+  unfold mid
+  simp only []
+  have h1 : outside (clsMid cfg) (resplit ts) = outside (clsMid cfg) ts :=
+    outside_mono (fun t ht => by simp [clsMid, ht]) (resplitAux_outside ts 0)
+  have h2 : outside (clsMid cfg) (onlyIf cfg.docattr docAttr (resplit ts)) = outside (clsMid cfg) ts := by
+    unfold onlyIf; split
+    · rename_i h
+      rw [outside_mono (fun t ht => by simp [clsMid, h, ht]) (docAttr_outside (resplit ts))]; exact h1
+    · exact h1
+  have h3 := map_canonTok_outside cfg (clsMid cfg) (fun t ht => by simp [clsMid, ht]) (clsMid_canonTok cfg)
+    (onlyIf cfg.docattr docAttr (resplit ts))
+  cases hr : cfg.reflow
+  · simp only [onlyIf, Bool.false_eq_true, if_false] at h3 h2 ⊢
+    rw [h3]; exact h2
+  · simp only [onlyIf, if_true] at h3 h2 ⊢
+    rw [docMerge, outside_mono (S := Tok.isDoc) (fun t ht => by simp [clsMid, clsSpell, ht]) (docMergeAux_outside _ _ none)]
+    rw [h3]; exact h2
+
+theorem mid_eq_map (cfg : Cfg) (h1 : cfg.docattr = false) (h2 : cfg.reflow = false) (ts : List Tok) :
+    mid cfg ts = (resplit ts).map (canonTok cfg) := by
+  simp [mid, onlyIf, h1, h2]
+
+
+/-! ## a toy lexer for the examples (blank-separated words) -/
+def splitSp : List Char → List Char → List (List Char)
+  | [], cur => [cur.reverse]
+  | c :: r, cur => if c == ' ' then cur.reverse :: splitSp r [] else splitSp r (c :: cur)
+
+def exWord (w : List Char) : List Tok :=
+  match w with
+  | [] => []
+  | '/' :: '/' :: '/' :: _ => [⟨['d'], w⟩]
+  | '"' :: _ => [⟨['L','s'], w⟩]
+  | '\'' :: _ => [⟨['l'], w⟩]
+  | c :: _ =>
+    if isDigit c then [⟨if w.contains '.' then ['L','f'] else ['L','i'], w⟩]
+    else if c.isAlpha || c == '_' then [⟨['i'], w⟩]
+    else w.map fun c =>
+      if c == '(' || c == '[' || c == '{' then mkO c
+      else if c == ')' || c == ']' || c == '}' then mkC c else mkP c
+
+/-- the characters of a string literal as an explicit list (expanded when the file is elaborated: the
+kernel is very slow at `String.toList`) -/
+macro "chars%" s:str : term => do
+  let cs : Array (Lean.TSyntax `term) :=
+    (s.getString.toList.map fun c => (⟨Lean.Syntax.mkCharLit c⟩ : Lean.TSyntax `term)).toArray
+  `([$cs,*])
+
+/-- `lexEx (chars% "fn f ( x : u32 , ) { }")`: identifiers, lifetimes, numbers, strings and `///` words
+become one token, every other character a punctuation / delimiter token -/
+def lexEx (s : List Char) : List Tok := (splitSp s []).flatMap exWord
 
 end RF.Tok
